@@ -80,7 +80,7 @@ fn validate_capset(s: &str) -> Result<(), Error> {
     }
 
     for part in s.split(',') {
-        if !CAPS.contains(&part.to_uppercase().as_str()) {
+        if !CAPS.iter().any(|cap| cap.eq_ignore_ascii_case(part)) {
             return Err(Error::InvalidFileCaps(format!("Unknown cap {}", &part)));
         }
     }
